@@ -227,7 +227,7 @@ class Upstream:
     extent = None
     res_range = None
 
-    def __init__(self, picture, events, lock, opts, supports_meta=True, as_buffer=False, rendezvous=None):
+    def __init__(self, picture, events, lock, opts, supports_meta=True, as_buffer=False, rendezvous=None, fault_at=None):
         self.picture, self.events, self.lock, self.opts = picture, events, lock, opts
         self.supports_meta_tiles = supports_meta
         self.as_buffer = as_buffer
@@ -235,34 +235,100 @@ class Upstream:
         self.cv = threading.Condition()
         self.arrived = 0
         self.timeouts = 0
+        self.fault_at = fault_at or {}        # index of the upstream request -> 'uncacheable' | 'truncate'
+        self.n_requests = 0
+        self.faulted = {'uncacheable': [], 'truncate': []}
+
+    def meet(self):
+        """creators running in parallel wait for each other here (bounded)."""
+        if not self.rendezvous:
+            return
+        par, total = self.rendezvous
+        with self.cv:
+            i = self.arrived
+            self.arrived += 1
+            target = min((i // par + 1) * par, total)
+            self.cv.notify_all()
+            deadline = time.time() + 0.4
+            while self.arrived < target:
+                left = deadline - time.time()
+                if left <= 0:
+                    self.timeouts += 1
+                    break
+                self.cv.wait(left)
+
+    def answer(self, bbox, size):
+        """log the request, decide the fault, render.  Returns (PIL image or bytes buffer, cacheable)."""
+        from io import BytesIO
+        with self.lock:
+            self.events.append(('req', tkey(), bbox, size))
+            fault = self.fault_at.get(self.n_requests)
+            self.n_requests += 1
+            if fault:
+                self.faulted[fault].append(bbox)
+        if fault == 'uncacheable':
+            # what an on_error handler with cache: false answers: a blank image that must not be stored
+            from PIL import Image
+            blank = Image.new('RGBA' if self.picture.transparent else 'RGB', size,
+                              (255, 255, 255, 0) if self.picture.transparent else (255, 255, 255))
+            return blank, False
+        img = self.picture.render(bbox, size)
+        if fault == 'truncate' or self.as_buffer:
+            b = BytesIO()
+            img.save(b, 'PNG')
+            data = b.getvalue()
+            if fault == 'truncate':
+                # the connection ends in the middle of the (first) IDAT chunk: the image data is incomplete
+                at = data.index(b'IDAT')
+                length = int.from_bytes(data[at - 4:at], 'big')
+                data = data[:at + 4 + length // 2]
+            return BytesIO(data), True
+        return img, True
 
     def get_map(self, query):
         from mapproxy.image import ImageSource
-        if self.rendezvous:
-            par, total = self.rendezvous
-            with self.cv:
-                i = self.arrived
-                self.arrived += 1
-                target = min((i // par + 1) * par, total)
-                self.cv.notify_all()
-                deadline = time.time() + 0.4
-                while self.arrived < target:
-                    left = deadline - time.time()
-                    if left <= 0:
-                        self.timeouts += 1
-                        break
-                    self.cv.wait(left)
+        self.meet()
         bbox, size = tuple(query.bbox), tuple(query.size)
-        with self.lock:
-            self.events.append(('req', tkey(), bbox, size))
-        img = self.picture.render(bbox, size)
-        if self.as_buffer:
-            from io import BytesIO
+        img, cacheable = self.answer(bbox, size)
+        return ImageSource(img, size=size, image_opts=self.opts, cacheable=cacheable)
+
+    # ---- the same upstream behind a real WMSSource / WMSClient: this object is the HTTP client
+    def open(self, url, data=None, **kw):
+        from io import BytesIO
+        from urllib.parse import urlparse, parse_qs
+        q = dict((k.lower(), v[0]) for k, v in parse_qs(urlparse(url).query).items())
+        bbox = tuple(float(x) for x in q['bbox'].split(','))
+        size = (int(q['width']), int(q['height']))
+        img, _ = self.answer(bbox, size)
+        if not hasattr(img, 'getvalue'):
             b = BytesIO()
             img.save(b, 'PNG')
-            b.seek(0)
-            return ImageSource(b, size=size, image_opts=self.opts)
-        return ImageSource(img, size=size, image_opts=self.opts)
+            img = b
+
+        class Response(BytesIO):
+            headers = {'Content-type': 'image/png'}
+            code = 200
+        return Response(img.getvalue())
+
+    def wms_source(self):
+        """a real WMSSource whose WMSClient fills in a request template; the creators meet after the last parameter
+        of _query_req was set, before the URL is built (schedule control at the template's parameter object)."""
+        from mapproxy.client.wms import WMSClient
+        from mapproxy.request.wms import WMS111MapRequest, WMSMapRequestParams
+        from mapproxy.source.wms import WMSSource
+        upstream = self
+
+        class MeetingParams(WMSMapRequestParams):
+            def _set_format(self, format):
+                WMSMapRequestParams.format.fset(self, format)
+                upstream.meet()
+            format = property(WMSMapRequestParams.format.fget, _set_format)
+
+        class MeetingRequest(WMS111MapRequest):
+            request_params = MeetingParams
+
+        req = MeetingRequest(url='http://upstream.invalid/service?', param={'layers': 'a'})
+        return WMSSource(WMSClient(req, http_client=self), image_opts=self.opts)
 
 
 class RecordingCache:
@@ -321,7 +387,7 @@ class RecordingCache:
         pass
 
 
-def run_manager(gc, picture, cfg, coords, cache=None, rendezvous=None):
+def run_manager(gc, picture, cfg, coords, cache=None, rendezvous=None, fault_at=None):
     """Run a real TileManager.  cfg: meta_size, meta_buffer, minimize, bulk, concurrent, as_buffer.
     Returns (steps, result sources, error) where steps = [(requests, [(coord, image)])] in canonical order."""
     from mapproxy.cache.tile import TileManager
@@ -333,7 +399,10 @@ def run_manager(gc, picture, cfg, coords, cache=None, rendezvous=None):
         opts = ImageOptions(transparent=False, format='image/png', mode='RGB')
     events, lock = [], threading.Lock()
     bulk = cfg['bulk']
-    src = Upstream(picture, events, lock, opts, supports_meta=not bulk, as_buffer=cfg.get('as_buffer', False), rendezvous=rendezvous)
+    up = Upstream(picture, events, lock, opts, supports_meta=not bulk, as_buffer=cfg.get('as_buffer', False),
+                  rendezvous=rendezvous, fault_at=fault_at)
+    src = up.wms_source() if (cfg.get('source') == 'wms' and not bulk) else up
+    run_manager.last = {'upstream': up, 'events': events}
     if cache is None:
         cache = RecordingCache(events, lock)
     else:
@@ -343,6 +412,7 @@ def run_manager(gc, picture, cfg, coords, cache=None, rendezvous=None):
                          meta_size=cfg['meta_size'], meta_buffer=cfg['meta_buffer'],
                          minimize_meta_requests=cfg['minimize'], bulk_meta_tiles=bulk,
                          concurrent_tile_creators=cfg['concurrent'])
+        run_manager.last['has_meta'] = tm.meta_grid is not None
         result = tm.load_tile_coords([tuple(c) if c is not None else None for c in coords])
         served = [(t.coord, None if t.source is None else t.source.as_image().copy()) for t in result]
         has_meta = tm.meta_grid is not None
@@ -524,6 +594,59 @@ def block_of(gc, cfg, coords, level, coord, has_meta):
     return (x0, x0 + sx - 1), (y0, y0 + sy - 1)
 
 
+def check_content(ctx, gc, picture, cfg, uncached, level, coord, img, has_meta, buf, m, reference, rep, what='stored'):
+    """one tile image against the same tile fetched alone (bit-exact when no buffer is cut off, <= 1 px otherwise;
+    no background more than one pixel inside the extent)."""
+    r = gc.res[level]
+    gx0, gy0, gx1, gy1 = gc.bbox
+    ref = reference(coord)
+    got = picture.decode(img)
+    if ref is None:
+        return
+    tw, th = gc.tw, gc.th
+    if img.size != (tw, th):
+        ctx.fail('tile-size', 'stored tile %r has size %r' % (coord, img.size), rep)
+        return
+    (bx0, bx1), (by0, by1) = block_of(gc, cfg, uncached, level, coord, has_meta)
+    lo = gc.tile_rect(bx0, by0, level)
+    hi = gc.tile_rect(bx1, by1, level)
+    box = (min(lo[0], hi[0]) - buf * r, min(lo[1], hi[1]) - buf * r, max(lo[2], hi[2]) + buf * r, max(lo[3], hi[3]) + buf * r)
+    untruncated = buf == 0 or (box[0] >= gx0 and box[1] >= gy0 and box[2] <= gx1 and box[3] <= gy1)
+    rect = gc.tile_rect(coord[0], coord[1], level)
+    worst = None
+    for k in range(th):
+        for j in range(tw):
+            a, b = got[k][j], ref[k][j]
+            if picture.is_bg(a):
+                if untruncated:
+                    worst = ('background', j, k)
+                    break
+                # pixel rectangle more than one pixel inside the extent?
+                px0, px1 = rect[0] + j * r, rect[0] + (j + 1) * r
+                py1, py0 = rect[3] - k * r, rect[3] - (k + 1) * r
+                if px0 >= gx0 + r and px1 <= gx1 - r and py0 >= gy0 + r and py1 <= gy1 - r:
+                    worst = ('background-inside', j, k)
+                    break
+                continue
+            bad = picture.mismatch(a, b, 0 if untruncated else m)
+            if bad:
+                worst = ('shift', j, k, bad, m)
+                break
+        if worst:
+            break
+    if worst:
+        kind = worst[0]
+        if kind == 'background':
+            ctx.fail('background-in-untruncated-tile', 'tile %r pixel %r is background although no buffer is cut off' % (coord, worst[1:]), dict(rep, tile=coord))
+        elif kind == 'background-inside':
+            ctx.fail('background-inside-extent', 'tile %r pixel %r more than one pixel inside the extent is background' % (coord, worst[1:]), dict(rep, tile=coord))
+        elif untruncated:
+            ctx.fail('tile-differs-from-tile-fetched-alone', 'tile %r pixel (%d,%d) %s (tile fetched alone; %d cells per pixel), no buffer cut off' % ((coord,) + worst[1:]), dict(rep, tile=coord))
+        else:
+            ctx.fail('tile-off-by-more-than-one-pixel', 'tile %r pixel (%d,%d) %s (tile fetched alone; %d cells per pixel)' % ((coord,) + worst[1:]), dict(rep, tile=coord))
+    ctx.count('tiles:' + ('untruncated' if untruncated else 'truncated'))
+
+
 def oracle(ctx, gc, picture, cfg, coords, level, steps, served, has_meta, reference, rep, cached=(), locked=()):
     """cached: coordinates the cache held when the request started (histories); only the others are created."""
     q = picture.q
@@ -565,54 +688,8 @@ def oracle(ctx, gc, picture, cfg, coords, level, steps, served, has_meta, refere
         if sorted(coords_here) != want:
             ctx.fail('store-not-whole-meta-tile', 'store call holds %r, the meta tile consists of %r' % (sorted(coords_here), want), rep)
     # content
-    gx0, gy0, gx1, gy1 = gc.bbox
     for coord, (si, img) in sorted(stored_at.items()):
-        ref = reference(coord)
-        got = picture.decode(img)
-        if ref is None:
-            continue
-        tw, th = gc.tw, gc.th
-        if img.size != (tw, th):
-            ctx.fail('tile-size', 'stored tile %r has size %r' % (coord, img.size), rep)
-            continue
-        (bx0, bx1), (by0, by1) = block_of(gc, cfg, uncached, level, coord, has_meta)
-        lo = gc.tile_rect(bx0, by0, level)
-        hi = gc.tile_rect(bx1, by1, level)
-        box = (min(lo[0], hi[0]) - buf * r, min(lo[1], hi[1]) - buf * r, max(lo[2], hi[2]) + buf * r, max(lo[3], hi[3]) + buf * r)
-        untruncated = buf == 0 or (box[0] >= gx0 and box[1] >= gy0 and box[2] <= gx1 and box[3] <= gy1)
-        rect = gc.tile_rect(coord[0], coord[1], level)
-        worst = None
-        for k in range(th):
-            for j in range(tw):
-                a, b = got[k][j], ref[k][j]
-                if picture.is_bg(a):
-                    if untruncated:
-                        worst = ('background', j, k)
-                        break
-                    # pixel rectangle more than one pixel inside the extent?
-                    px0, px1 = rect[0] + j * r, rect[0] + (j + 1) * r
-                    py1, py0 = rect[3] - k * r, rect[3] - (k + 1) * r
-                    if px0 >= gx0 + r and px1 <= gx1 - r and py0 >= gy0 + r and py1 <= gy1 - r:
-                        worst = ('background-inside', j, k)
-                        break
-                    continue
-                bad = picture.mismatch(a, b, 0 if untruncated else m)
-                if bad:
-                    worst = ('shift', j, k, bad, m)
-                    break
-            if worst:
-                break
-        if worst:
-            kind = worst[0]
-            if kind == 'background':
-                ctx.fail('background-in-untruncated-tile', 'tile %r pixel %r is background although no buffer is cut off' % (coord, worst[1:]), dict(rep, tile=coord))
-            elif kind == 'background-inside':
-                ctx.fail('background-inside-extent', 'tile %r pixel %r more than one pixel inside the extent is background' % (coord, worst[1:]), dict(rep, tile=coord))
-            elif untruncated:
-                ctx.fail('tile-differs-from-tile-fetched-alone', 'tile %r pixel (%d,%d) %s (tile fetched alone; %d cells per pixel), no buffer cut off' % ((coord,) + worst[1:]), dict(rep, tile=coord))
-            else:
-                ctx.fail('tile-off-by-more-than-one-pixel', 'tile %r pixel (%d,%d) %s (tile fetched alone; %d cells per pixel)' % ((coord,) + worst[1:]), dict(rep, tile=coord))
-        ctx.count('tiles:' + ('untruncated' if untruncated else 'truncated'))
+        check_content(ctx, gc, picture, cfg, uncached, level, coord, img, has_meta, buf, m, reference, rep)
     # what is served equals what is stored
     for c, img in served:
         if c is not None and img is not None and c in stored_at:
@@ -658,6 +735,7 @@ def gen_cfg(rng, gc):
         cfg['meta_buffer'] = 0
     if mode == 'bulk' and ms == [1, 1]:
         cfg['meta_size'] = [2, 1]
+    cfg['source'] = 'wms' if (mode != 'bulk' and rng.random() < 0.35) else 'mock'
     return cfg
 
 
@@ -681,7 +759,7 @@ def run(ctx):
 
     grids = []
     defs = []
-    T = {name: ([], []) for name in ('misc', 'meta_tile', 'minimal', 'plan', 'pixel', 'colour')}
+    T = {name: ([], []) for name in ('misc', 'meta_tile', 'minimal', 'plan', 'pixel', 'colour', 'faults')}
 
     def add(name, term, desc):
         T[name][0].append(term)
@@ -735,6 +813,7 @@ def run(ctx):
         mode = 'single' if (steps is not None and not has_meta) else 'minimize' if cfg['minimize'] else 'bulk' if cfg['bulk'] else 'meta'
         ctx.count('e2e:' + mode)
         ctx.count('e2e:picture=' + kind)
+        ctx.count('e2e:source=' + ('real WMSSource/WMSClient' if (cfg.get('source') == 'wms' and not cfg['bulk']) else 'mock source'))
         ctx.count('e2e:cache=' + ('empty' if not cached else 'holds_tiles'))
         ctx.count('e2e:concurrent=%d' % cfg['concurrent'])
         ctx.count('e2e:buffer=' + ('0' if not cfg['meta_buffer'] else '<tile' if cfg['meta_buffer'] < min(gc.tw, gc.th) else '>=tile'))
@@ -848,6 +927,90 @@ def run(ctx):
             e2e(gc, cfg, coords, level, 'concurrent', kind=kind, history=dict(sched, this=name),
                 observed=(steps, served, has_meta, None), cached_override=cached_a, locked=cached_b)
 
+    def run_faults(gc, level, kind, spec=None):
+        """an upstream fault during one request (a response that must not be cached / a response that ends in the
+        middle of the image data), then the same request again without fault, on one cache."""
+        if spec is None:
+            cfg = gen_cfg(rng, gc)
+            cfg['concurrent'] = 1
+            cfg['source'] = 'mock'
+            fault = rng.choice(['uncacheable', 'uncacheable', 'truncate'])
+            if fault == 'truncate':
+                cfg['bulk'] = False
+                if cfg['meta_size'] == [1, 1] and not cfg['meta_buffer']:
+                    cfg['meta_size'] = [2, 2]
+            coords = pick_tiles(rng, gc, level, rng.choice(['block', 'block', 'random', 'one']))
+            spec = {'config': cfg, 'tiles': coords, 'fault_at': {str(rng.choice([0, 0, 0, 1, 1, 2])): fault}}
+        cfg = spec['config']
+        coords = [tuple(c) for c in spec['tiles']]
+        fault_at = dict((int(k), v) for k, v in spec['fault_at'].items())
+        q = int(min(gc.res) * gc.S) // 10 if kind == 'cells' else int(gc.res[level] * gc.S)
+        picture = Picture(gc, q, kind)
+        rep = {'grid': gc.spec, 'config': cfg, 'level': level, 'tiles': [list(c) for c in coords], 'picture': kind,
+               'upstream_fault_at_request_number': spec['fault_at']}
+        cache = RecordingCache([], threading.Lock())
+        steps, served, has_meta, err = run_manager(gc, picture, cfg, coords, cache=cache, fault_at=fault_at)
+        last = run_manager.last
+        has_meta = last.get('has_meta', False)
+        up, events = last['upstream'], last['events']
+        requests = [(ev[2], ev[3]) for ev in events if ev[0] == 'req']
+        records = [rec for ev in events if ev[0] == 'store' for rec in ev[2]]
+        bad, cut = up.faulted['uncacheable'], up.faulted['truncate']
+        ctx.count('faults:' + ('uncacheable' if bad else 'truncated' if cut else 'none_hit'))
+        ctx.case(('faults', json.dumps(rep, sort_keys=True)), True,
+                 dict(rep, requests=requests[:4], stored=[c for c, _ in records][:8], error=err) if len(ctx.samples) < 6 else None)
+        if err is not None and not cut:
+            ctx.fail('tile-manager-raises', 'TileManager raised %s' % err, rep)
+            return
+
+        def reference(coord):
+            key = (gc.name, coord, q)
+            if key not in ref_cache:
+                scfg = {'meta_size': None, 'meta_buffer': None, 'minimize': False, 'bulk': False, 'concurrent': 1}
+                st, sv, hm, er = run_manager(gc, Picture(gc, q, 'cells'), scfg, [coord])
+                ref_cache[key] = None if (er is not None or not st or not st[0][1]) else decode(st[0][1][0][1])
+            return ref_cache[key]
+
+        valid = []
+        for c in coords:
+            if c not in valid:
+                valid.append(c)
+        r = gc.res[level]
+        m = -((-int(r * gc.S)) // q)
+        buf = cfg['meta_buffer'] if (has_meta and not cfg['bulk']) else 0
+        # whatever the fault: what is in the cache afterwards shows the picture (a substitute image that must not be
+        # cached or the rows of a cut-off image that arrived are not the picture)
+        for coord, img in records:
+            check_content(ctx, gc, picture, cfg, valid, level, coord, img, has_meta, buf, m, reference,
+                          dict(rep, after='request with the upstream fault'))
+        ms = cfg['meta_size'] or [1, 1]
+        mgl = mg_lit(gc, ms, 0 if (cfg['bulk'] or not has_meta) else (cfg['meta_buffer'] or 0))
+        blist = lambda l: llit(l, gc.zbbox)   # noqa
+        if any(sum(1 for rq in requests if rq[0] == b) > 1 for b in bad + cut):
+            # the model names a faulted response by its bbox: not comparable when two requests have the same bbox
+            ctx.count('faults:not_compared_same_bbox_twice')
+        else:
+            add('faults', '(%s, %s, %s, %s, %s, %s, %s, Some (%s, %s, %s))' % (
+                mgl, blit(has_meta), blit(cfg['minimize']), blit(cfg['bulk'] and has_meta), blist(bad), blist(cut),
+                llit(valid, coord_lit), llit(requests, lambda rq: '(%s, %s)' % (gc.zbbox(rq[0]), z2(rq[1]))),
+                llit([c for c, _ in records], coord_lit), blit(err is not None)),
+                dict(rep, requests=requests, stored=[c for c, _ in records], error=err))
+        # the same request again, the fault is over: every tile is served and shows the picture
+        stored1 = set(c for c, _ in records)
+        steps2, served2, hm2, err2 = run_manager(gc, picture, cfg, coords, cache=cache)
+        if err2 is not None:
+            ctx.fail('tile-manager-raises', 'TileManager raised %s on the request after the fault' % err2, rep)
+            return
+        unc2 = [c for c in valid if c not in stored1]
+        rep2 = dict(rep, after='the same request again without fault')
+        for c, img in served2:
+            if c is None:
+                continue
+            if img is None:
+                ctx.fail('requested-tile-not-produced', 'tile %r is not served after the fault is over' % (c,), rep2)
+            else:
+                check_content(ctx, gc, picture, cfg, valid if c in stored1 else unc2, level, c, img, has_meta, buf, m, reference, rep2)
+
     def run_history(gc, level, kind):
         """several requests (configuration may change in between) and removals of single tiles on ONE cache:
         partially cached meta tiles, with and without their main tile."""
@@ -880,7 +1043,9 @@ def run(ctx):
     # ---- corpus first
     for item in load_corpus():
         gc = new_grid(item['grid'])
-        if 'concurrent_requests' in item:
+        if 'faults' in item:
+            run_faults(gc, item['level'], item.get('picture', 'cells'), spec=item['faults'])
+        elif 'concurrent_requests' in item:
             run_concurrent(gc, item['level'], item.get('picture', 'cells'), spec=item['concurrent_requests'])
         elif 'history' in item:
             cache = RecordingCache([], threading.Lock())
@@ -967,6 +1132,8 @@ def run(ctx):
             run_history(gc, rng.choice(e2e_levels), rng.choice(['cells', 'cells', 'rgba', 'rgb']))
         for _ in range(ctx.n(2, 5) if e2e_levels else 0):
             run_concurrent(gc, rng.choice(e2e_levels), rng.choice(['cells', 'cells', 'rgba']))
+        for _ in range(ctx.n(3, 8) if e2e_levels else 0):
+            run_faults(gc, rng.choice(e2e_levels), rng.choice(['cells', 'cells', 'rgba', 'rgb']))
 
     dtext = '\n'.join(defs)
     I = 'Grid MetaGrid'
@@ -987,6 +1154,11 @@ def run(ctx):
     ctx.corr_check('stored_pixel', I, 'mgrid * Z * how * coord * Z * Z * option (option (Z * Z))', T['pixel'][0],
                    "fun c => let '(m, q, h, t, j, k, obs) := c in oopix_eqb (model_pixel m q h t j k) obs",
                    lambda i: T['pixel'][1][i], defs=dtext, shard=400)
+    ctx.corr_check('upstream_faults', I, 'mgrid * bool * bool * bool * list bbox * list bbox * list coord * option (list request * list coord * bool)',
+                   T['faults'][0],
+                   "fun c => let '(m, has_meta, minimize, bulk, bad, cut, tiles, obs) := c in "
+                   "outcome_eqb (request_with_faults m has_meta minimize bulk [] bad cut tiles) obs",
+                   lambda i: T['faults'][1][i], defs=dtext, shard=200)
     ctx.corr_check('stored_colour', I, 'mgrid * Z * how * bool * coord * Z * Z * option rgba', T['colour'][0],
                    "fun c => let '(m, q, h, tr, t, j, k, obs) := c in orgba_eqb (model_colour m q h tr t j k) obs",
                    lambda i: T['colour'][1][i], defs=dtext, shard=400)
